@@ -84,6 +84,10 @@ enum Cuts {
 enum Case {
     /// encode `msgs` with one role, decode at the peer role (max_size `max`) under `cuts`
     Round { server_enc: bool, max: usize, msgs: Vec<Msg>, cuts: Cuts },
+    /// like `Round`, but every message is encoded into the SAME write buffer, which already holds
+    /// `pre` (hex): what `Framed` does when messages are queued faster than they are flushed.
+    /// The peer decodes what follows `pre`.
+    Batch { server_enc: bool, max: usize, pre: String, msgs: Vec<Msg>, cuts: Cuts },
     /// decode a stream of frame specs (after truncation and byte flips) under `cuts`
     Decode { server: bool, max: usize, frames: Vec<FrameSpec>, trunc: Option<usize>, flips: Vec<(usize, u8)>, cuts: Cuts },
     /// header names lower-case, values hex
@@ -668,147 +672,199 @@ fn hs_err_name(e: HandshakeError) -> &'static str {
     }
 }
 
+/// Round trip of a message list. `batch = None`: every message into a fresh buffer (the outputs are
+/// concatenated by the harness). `batch = Some(pre)`: all messages into ONE BytesMut that already
+/// holds `pre`; the peer decodes what follows `pre`.
+fn run_round(out: &mut CaseOut, server_enc: bool, max: usize, msgs: &[Msg], cuts: &Cuts, batch: Option<&[u8]>) {
+
+        let mut enc = if server_enc { Codec::new() } else { Codec::new().client_mode() };
+        let masked = !server_enc;
+        let mut stream = vec![];
+        let mut enc_obs = vec![];
+        let mut coq_items = vec![];
+        let mut why = String::new();
+        // reference state of the writer: is a fragmented message open
+        let mut w_open = false;
+        // batch mode: ONE write buffer for all messages, already holding `pre`
+        let pre: Vec<u8> = batch.map(|p| p.to_vec()).unwrap_or_default();
+        let mut altered: Option<String> = None;
+        let mut shared = BytesMut::from(&pre[..]);
+        for (i, m) in msgs.iter().enumerate() {
+            let mut fresh = BytesMut::new();
+            let dst: &mut BytesMut = if batch.is_some() { &mut shared } else { &mut fresh };
+            // what the buffer held before this message
+            let before = dst.to_vec();
+            let r = catch(|| enc.encode(to_message(m), dst));
+            let mut key = vec![0u8; 4];
+            // "every message ... decodes to the same message" includes the ones queued earlier: encoding
+            // may only append to the write buffer
+            let kept = dst.len() >= before.len() && dst[..before.len()] == before[..];
+            if !kept && altered.is_none() {
+                let at = (0..before.len().min(dst.len())).find(|k| dst[*k] != before[*k]).unwrap_or(dst.len());
+                altered = Some(format!(
+                    "encoding message {i} ({}) altered bytes already in the write buffer (first at offset {at} of {} held)",
+                    format!("{m:?}").split([' ', '{']).next().unwrap_or(""),
+                    before.len()
+                ));
+            }
+            let appended: Vec<u8> = if kept { dst[before.len()..].to_vec() } else { vec![] };
+            match r {
+                Err(p) => {
+                    enc_obs.push(V::t0("panic"));
+                    why = format!("encode of message {i} panicked: {p}");
+                }
+                Ok(Err(e)) => {
+                    enc_obs.push(V::T("err", vec![v_perr(&e)]));
+                    if dst[..] != before[..] && why.is_empty() {
+                        why = format!("encode of message {i} failed but changed the buffer ({} -> {} bytes)", before.len(), dst.len());
+                    }
+                }
+                Ok(Ok(())) => {
+                    if masked {
+                        if let Some(p) = msg_payload(m) {
+                            let hl = before.len() + header_len(p.len(), true);
+                            if dst.len() >= hl {
+                                key = dst[hl - 4..hl].to_vec();
+                            }
+                        }
+                    }
+                    // the whole buffer after this message (batch mode: including what was there before)
+                    enc_obs.push(V::T("ok", vec![v_wire(dst)]));
+                }
+            }
+            // writer-side legality (RFC 6455 section 5.4), judged on the message sequence alone
+            let legal_w = match m {
+                Msg::FirstText { .. } | Msg::FirstBinary { .. } => !w_open,
+                Msg::Continue { .. } | Msg::Last { .. } => w_open,
+                _ => true,
+            };
+            let wrote = dst[..] != before[..];
+            if !legal_w && wrote && why.is_empty() {
+                why = format!("encoder wrote message {i} ({m:?}) illegal in writer state open={w_open}");
+            }
+            if legal_w && !wrote && !matches!(m, Msg::Nop) && why.is_empty() {
+                why = format!("encoder refused legal message {i}");
+            }
+            if wrote {
+                match m {
+                    Msg::FirstText { .. } | Msg::FirstBinary { .. } => w_open = true,
+                    Msg::Last { .. } => w_open = false,
+                    _ => {}
+                }
+            }
+            if batch.is_none() {
+                stream.extend_from_slice(&appended);
+            }
+            coq_items.push(format!("({}, {})", coq_msg(m), coq_bytes(&key)));
+        }
+        // what the peer reads: everything behind `pre` as the buffer stands at the end (batch mode)
+        let pre_now: Vec<u8> = shared[..pre.len().min(shared.len())].to_vec();
+        if batch.is_some() {
+            stream = shared[pre.len().min(shared.len())..].to_vec();
+            if pre_now != pre && altered.is_none() {
+                altered = Some(format!("the {} bytes the write buffer held before the batch were altered", pre.len()));
+            }
+        }
+        let whole = run_decoder(masked, max, &[stream.clone()]);
+        let cutrun = run_decoder(masked, max, &segments(&stream, cuts));
+        let (ok, jwhy, class) = judge(masked, max, &stream, cuts, &whole, &cutrun);
+        // round trip proper: on a stream the reference accepts completely, the delivered frames are
+        // exactly the messages (judge already compared frames with the reference reading of the
+        // stream; here the reference reading is compared with the *messages*)
+        let mut expect_frames = vec![];
+        let mut open = false;
+        for m in msgs {
+            let legal_w = match m {
+                Msg::FirstText { .. } | Msg::FirstBinary { .. } => !open,
+                Msg::Continue { .. } | Msg::Last { .. } => open,
+                _ => true,
+            };
+            if !legal_w {
+                continue;
+            }
+            let f = match m {
+                Msg::Text { pl } => V::T("Text", vec![v_pl(&pl.bytes())]),
+                Msg::Binary { pl } => V::T("Binary", vec![v_pl(&pl.bytes())]),
+                Msg::Ping { pl } => V::T("Ping", vec![v_pl(&pl.bytes())]),
+                Msg::Pong { pl } => V::T("Pong", vec![v_pl(&pl.bytes())]),
+                Msg::Close { reason: None } => V::T("Close", vec![V::t0("none")]),
+                Msg::Close { reason: Some(r) } => {
+                    let d = r.desc.as_ref().map(|d| d.bytes()).filter(|d| !d.is_empty());
+                    v_close(r.code, d.as_deref())
+                }
+                Msg::FirstText { pl } => {
+                    open = true;
+                    V::T("FirstText", vec![v_pl(&pl.bytes())])
+                }
+                Msg::FirstBinary { pl } => {
+                    open = true;
+                    V::T("FirstBinary", vec![v_pl(&pl.bytes())])
+                }
+                Msg::Continue { pl } => V::T("Continue", vec![v_pl(&pl.bytes())]),
+                Msg::Last { pl } => {
+                    open = false;
+                    V::T("Last", vec![v_pl(&pl.bytes())])
+                }
+                Msg::Nop => continue,
+            };
+            expect_frames.push(f);
+        }
+        let rf = reference(masked, max, &stream);
+        if why.is_empty() && !ok {
+            why = jwhy;
+        }
+        if why.is_empty() {
+            // every frame the reference accepts must be the corresponding message
+            let n = rf.frames.len();
+            if n > expect_frames.len() || rf.frames[..] != expect_frames[..n] {
+                why = format!("wire bytes do not carry the messages: {:?} vs {:?}", rf.frames.iter().map(|f| f.show()).collect::<Vec<_>>(), expect_frames.iter().map(|f| f.show()).collect::<Vec<_>>());
+            } else if matches!(rf.end, RefEnd::More { .. }) && n != expect_frames.len() {
+                why = "wire bytes end before all messages".into();
+            }
+        }
+        if let Some(a) = altered {
+            why = if why.is_empty() { a } else { format!("{why}; {a}") };
+        }
+        out.oracle_ok = why.is_empty();
+        out.oracle_why = why;
+        out.known_class = class;
+        let v = if batch.is_some() {
+            V::T("batch", vec![V::L(enc_obs), V::h(&pre_now), v_run(&cutrun)])
+        } else {
+            V::T("round", vec![V::L(enc_obs), v_run(&cutrun)])
+        };
+        out.impl_show = v.show();
+        out.expect = Some(v.coq());
+        out.coq_case = Some(if batch.is_some() {
+            format!("CBatch {} {} {} {} {}", coq_bool(server_enc), max, coq_bytes(&pre), format!("[{}]", coq_items.join("; ")), coq_cuts(cuts))
+        } else {
+            format!("CRound {} {} {} {}", coq_bool(server_enc), max, format!("[{}]", coq_items.join("; ")), coq_cuts(cuts))
+        });
+        out.nontrivial = msgs.iter().any(|m| !matches!(m, Msg::Nop));
+        out.tags.push(format!("{}-{}", if batch.is_some() { "batch" } else { "round" }, if server_enc { "server-enc" } else { "client-enc" }));
+        if batch.is_some() {
+            out.tags.push(format!("pre={}", if pre.is_empty() { "empty" } else { "held-bytes" }));
+            out.tags.push(format!("batch-written={}", msgs.iter().filter(|m| !matches!(m, Msg::Nop)).count().min(6)));
+        }
+        out.tags.push(format!("max={max}"));
+        for m in msgs {
+            if let Some(p) = msg_payload(m) {
+                out.tags.push(format!("len={}", len_bucket(p.len())));
+            }
+            out.tags.push(format!("msg={}", format!("{m:?}").split([' ', '{']).next().unwrap_or("")));
+        }
+        tag_cuts(out, cuts);
+        tag_end(out, &whole);
+    }
+
 // ------------------------------------------------------------------ one case
 
 fn run_case(id: String, case: &Case) -> CaseOut {
     let input = serde_json::to_value(case).unwrap();
     let mut out = CaseOut { id, input, oracle_ok: true, ..Default::default() };
     match case {
-        Case::Round { server_enc, max, msgs, cuts } => {
-            let mut enc = if *server_enc { Codec::new() } else { Codec::new().client_mode() };
-            let masked = !*server_enc;
-            let mut stream = vec![];
-            let mut enc_obs = vec![];
-            let mut coq_items = vec![];
-            let mut why = String::new();
-            // reference state of the writer: is a fragmented message open
-            let mut w_open = false;
-            for (i, m) in msgs.iter().enumerate() {
-                let mut dst = BytesMut::new();
-                let r = catch(|| enc.encode(to_message(m), &mut dst));
-                let mut key = vec![0u8; 4];
-                match r {
-                    Err(p) => {
-                        enc_obs.push(V::t0("panic"));
-                        why = format!("encode of message {i} panicked: {p}");
-                    }
-                    Ok(Err(e)) => {
-                        enc_obs.push(V::T("err", vec![v_perr(&e)]));
-                        if !dst.is_empty() && why.is_empty() {
-                            why = format!("encode of message {i} failed but wrote {} bytes", dst.len());
-                        }
-                    }
-                    Ok(Ok(())) => {
-                        if masked {
-                            if let Some(p) = msg_payload(m) {
-                                let hl = header_len(p.len(), true);
-                                if dst.len() >= hl {
-                                    key = dst[hl - 4..hl].to_vec();
-                                }
-                            }
-                        }
-                        enc_obs.push(V::T("ok", vec![v_wire(&dst)]));
-                    }
-                }
-                // writer-side legality (RFC 6455 section 5.4), judged on the message sequence alone
-                let legal_w = match m {
-                    Msg::FirstText { .. } | Msg::FirstBinary { .. } => !w_open,
-                    Msg::Continue { .. } | Msg::Last { .. } => w_open,
-                    _ => true,
-                };
-                let wrote = !dst.is_empty();
-                if !legal_w && wrote && why.is_empty() {
-                    why = format!("encoder wrote message {i} ({m:?}) illegal in writer state open={w_open}");
-                }
-                if legal_w && !wrote && !matches!(m, Msg::Nop) && why.is_empty() {
-                    why = format!("encoder refused legal message {i}");
-                }
-                if wrote {
-                    match m {
-                        Msg::FirstText { .. } | Msg::FirstBinary { .. } => w_open = true,
-                        Msg::Last { .. } => w_open = false,
-                        _ => {}
-                    }
-                }
-                stream.extend_from_slice(&dst);
-                coq_items.push(format!("({}, {})", coq_msg(m), coq_bytes(&key)));
-            }
-            let whole = run_decoder(masked, *max, &[stream.clone()]);
-            let cutrun = run_decoder(masked, *max, &segments(&stream, cuts));
-            let (ok, jwhy, class) = judge(masked, *max, &stream, cuts, &whole, &cutrun);
-            // round trip proper: on a stream the reference accepts completely, the delivered frames are
-            // exactly the messages (judge already compared frames with the reference reading of the
-            // stream; here the reference reading is compared with the *messages*)
-            let mut expect_frames = vec![];
-            let mut open = false;
-            for m in msgs {
-                let legal_w = match m {
-                    Msg::FirstText { .. } | Msg::FirstBinary { .. } => !open,
-                    Msg::Continue { .. } | Msg::Last { .. } => open,
-                    _ => true,
-                };
-                if !legal_w {
-                    continue;
-                }
-                let f = match m {
-                    Msg::Text { pl } => V::T("Text", vec![v_pl(&pl.bytes())]),
-                    Msg::Binary { pl } => V::T("Binary", vec![v_pl(&pl.bytes())]),
-                    Msg::Ping { pl } => V::T("Ping", vec![v_pl(&pl.bytes())]),
-                    Msg::Pong { pl } => V::T("Pong", vec![v_pl(&pl.bytes())]),
-                    Msg::Close { reason: None } => V::T("Close", vec![V::t0("none")]),
-                    Msg::Close { reason: Some(r) } => {
-                        let d = r.desc.as_ref().map(|d| d.bytes()).filter(|d| !d.is_empty());
-                        v_close(r.code, d.as_deref())
-                    }
-                    Msg::FirstText { pl } => {
-                        open = true;
-                        V::T("FirstText", vec![v_pl(&pl.bytes())])
-                    }
-                    Msg::FirstBinary { pl } => {
-                        open = true;
-                        V::T("FirstBinary", vec![v_pl(&pl.bytes())])
-                    }
-                    Msg::Continue { pl } => V::T("Continue", vec![v_pl(&pl.bytes())]),
-                    Msg::Last { pl } => {
-                        open = false;
-                        V::T("Last", vec![v_pl(&pl.bytes())])
-                    }
-                    Msg::Nop => continue,
-                };
-                expect_frames.push(f);
-            }
-            let rf = reference(masked, *max, &stream);
-            if why.is_empty() && !ok {
-                why = jwhy;
-            }
-            if why.is_empty() {
-                // every frame the reference accepts must be the corresponding message
-                let n = rf.frames.len();
-                if n > expect_frames.len() || rf.frames[..] != expect_frames[..n] {
-                    why = format!("wire bytes do not carry the messages: {:?} vs {:?}", rf.frames.iter().map(|f| f.show()).collect::<Vec<_>>(), expect_frames.iter().map(|f| f.show()).collect::<Vec<_>>());
-                } else if matches!(rf.end, RefEnd::More { .. }) && n != expect_frames.len() {
-                    why = "wire bytes end before all messages".into();
-                }
-            }
-            out.oracle_ok = why.is_empty();
-            out.oracle_why = why;
-            out.known_class = class;
-            let v = V::T("round", vec![V::L(enc_obs), v_run(&cutrun)]);
-            out.impl_show = v.show();
-            out.expect = Some(v.coq());
-            out.coq_case = Some(format!("CRound {} {} {} {}", coq_bool(*server_enc), max, format!("[{}]", coq_items.join("; ")), coq_cuts(cuts)));
-            out.nontrivial = msgs.iter().any(|m| !matches!(m, Msg::Nop));
-            out.tags.push(format!("round-{}", if *server_enc { "server-enc" } else { "client-enc" }));
-            out.tags.push(format!("max={max}"));
-            for m in msgs {
-                if let Some(p) = msg_payload(m) {
-                    out.tags.push(format!("len={}", len_bucket(p.len())));
-                }
-                out.tags.push(format!("msg={}", format!("{m:?}").split([' ', '{']).next().unwrap_or("")));
-            }
-            tag_cuts(&mut out, cuts);
-            tag_end(&mut out, &whole);
-        }
+        Case::Round { server_enc, max, msgs, cuts } => run_round(&mut out, *server_enc, *max, msgs, cuts, None),
+        Case::Batch { server_enc, max, pre, msgs, cuts } => run_round(&mut out, *server_enc, *max, msgs, cuts, Some(&unhex(pre))),
         Case::Decode { server, max, frames, trunc, flips, cuts } => {
             let mut pieces: Vec<Piece> = frames.iter().flat_map(frame_pieces).collect();
             let mut data = pieces_bytes(&pieces);
@@ -1022,8 +1078,8 @@ fn gen_max(rng: &mut Rng) -> usize {
     }
 }
 
-fn gen_msgs(rng: &mut Rng, legal: bool, long_ok: bool) -> Vec<Msg> {
-    let n = rng.range(1, 6) as usize;
+fn gen_msgs(rng: &mut Rng, legal: bool, long_ok: bool, n_min: u64, n_max: u64) -> Vec<Msg> {
+    let n = rng.range(n_min, n_max) as usize;
     let mut open = false;
     let mut long_used = !long_ok;
     let mut v = vec![];
@@ -1104,12 +1160,37 @@ fn hot_of_msgs(msgs: &[Msg], masked: bool) -> (usize, Vec<usize>) {
 fn gen_round(rng: &mut Rng, long_ok: bool) -> Case {
     let server_enc = rng.chance(1, 2);
     let legal = rng.chance(4, 5);
-    let msgs = gen_msgs(rng, legal, long_ok);
+    let msgs = gen_msgs(rng, legal, long_ok, 1, 6);
     let (total, hot) = hot_of_msgs(&msgs, !server_enc);
     // mostly a max_size that lets the messages through, sometimes a boundary value
     let biggest = msgs.iter().filter_map(msg_payload).map(|p| p.len()).max().unwrap_or(0);
     let max = if rng.chance(3, 5) { *[biggest, biggest + 1, 65536.max(biggest), 1 << 20].iter().filter(|m| **m >= biggest).nth(rng.below(4) as usize % 4).unwrap_or(&(1 << 20)) } else { gen_max(rng) };
     Case::Round { server_enc, max, msgs, cuts: gen_cuts(rng, total, &hot) }
+}
+
+/// 2..6 messages of mixed sizes / opcodes queued into ONE write buffer before anything is read;
+/// two thirds by the client role (masking), mostly sendable, the buffer sometimes already holding bytes
+fn gen_batch(rng: &mut Rng, long_ok: bool) -> Case {
+    let server_enc = rng.chance(1, 3);
+    let legal = rng.chance(9, 10);
+    let mut msgs = gen_msgs(rng, legal, long_ok, 2, if long_ok { 3 } else { 6 });
+    // at least two messages that write something
+    if msgs.iter().filter(|m| !matches!(m, Msg::Nop)).count() < 2 {
+        let l = gen_len(rng, false);
+        msgs.push(Msg::Binary { pl: gen_pl(rng, l, false) });
+        let l = gen_len(rng, false) % 126;
+        msgs.push(Msg::Ping { pl: gen_pl(rng, l, false) });
+    }
+    let (total, hot) = hot_of_msgs(&msgs, !server_enc);
+    let biggest = msgs.iter().filter_map(msg_payload).map(|p| p.len()).max().unwrap_or(0);
+    let max = if rng.chance(4, 5) { *rng.pick(&[biggest, biggest + 1, 65536.max(biggest), 1 << 20]) } else { gen_max(rng) };
+    let pre = if rng.chance(2, 3) {
+        vec![]
+    } else {
+        let n = *rng.pick(&[1usize, 2, 3, 5, 6, 7, 8, 13, 14, 15, 40]);
+        rng.bytes(n)
+    };
+    Case::Batch { server_enc, max, pre: hex(&pre), msgs, cuts: gen_cuts(rng, total, &hot) }
 }
 
 fn gen_frame(rng: &mut Rng, server: bool, valid: bool, open: &mut bool, allow_long: bool) -> FrameSpec {
@@ -1329,14 +1410,15 @@ fn main() {
         em.emit(run_case(id, &case));
     }
     if args.case.is_none() {
-        let n = args.n.unwrap_or(if args.thorough() { 3000 } else { 350 });
+        let n = args.n.unwrap_or(if args.thorough() { 2400 } else { 350 });
         let mut rng = Rng::new(args.seed);
         for i in 0..n {
             let mut r = rng.fork();
             // payloads of 65535 bytes and more are costly to evaluate in Coq: one case in twelve (quick), one in six (thorough)
             let long_ok = if args.thorough() { r.chance(1, 6) } else { r.chance(1, 12) };
             let case = match r.below(20) {
-                0..=8 => gen_round(&mut r, long_ok),
+                0..=5 => gen_round(&mut r, long_ok),
+                6..=8 => gen_batch(&mut r, long_ok),
                 9..=16 => gen_decode(&mut r, long_ok),
                 17 | 18 => gen_handshake(&mut r),
                 _ => gen_hashkey(&mut r),
